@@ -7,12 +7,23 @@ schema-level extends of 1..3 base files, component imports along every import
 graph over three generated packages); each is rendered together with its
 mechanically produced expansion (vz.gen.expand / construction), both are loaded,
 and the ENTIRE C01 breadth-first search of the expanded schema is replayed on
-both: identical outcome (value tree or rejection) for every text.
+both: identical outcome (value tree or rejection) for every text; the two schema
+objects must also have the same structure modulo object identity.
+
+Wave 2: an import graph is a graph of *references*, and one component - a
+(package, file) pair - can be written in several ways (file omitted or
+'component.xml' written out, package absolute or '.'-relative to the prefix),
+while a second file of the same package is a different component.  Section (e)
+gives every edge of every graph every spelling, and also puts a '%import P' line
+in front of texts for every package whose default component the schema already
+has (one more path to the same component).
 """
+import importlib
 import io
 import itertools
 import os
 import shutil
+import sys
 import tempfile
 from dataclasses import replace
 
@@ -189,6 +200,11 @@ def compare(composed_xml, expanded_model, acc, mid, depth, feature, composed_loa
         acc.cls("both-refused")
         return
     acc.cls("both-accepted")
+    st_c, st_e = struct(sch_c, top_unordered), struct(sch_e, top_unordered)
+    if st_c != st_e:
+        d = struct_diff(st_c, st_e)
+        acc.violation("composed-schema-structure-differs-from-expansion", case0, ["composed"] + d[:1],
+                      ["expanded"] + d[1:], tags={"kind": "structure", "feature": feature})
 
     def check(hist, text):
         oe = outcome(sch_e, text)
@@ -405,6 +421,290 @@ def shard_imports(arg, acc):
     return acc
 
 
+
+# ---------------------------------------------------------------------------
+# (e) spelling of import references x several component files per package x %import lines
+#
+# A component is a (package, file) pair.  The same component can be named in several ways
+# (docs/writing-schema.rst, <import>): the file left to its default or spelled 'component.xml';
+# the package absolute or '.'-relative to the enclosing prefix.  A second file of a package is
+# a different component.  Every edge of an import graph gets every spelling.
+
+TARGETS = {"A": ("pa", None), "B": ("pb", None), "C": ("pc", None), "X": ("pa", "extra.xml")}
+SPELL = {"quick": {None: ("abs", "file", "rel"), "extra.xml": ("abs", "rel")},
+         "thorough": {None: ("abs", "file", "rel", "relfile"), "extra.xml": ("abs", "rel")}}
+
+
+def refs_of(target, tier):
+    return [(target, sp) for sp in SPELL[tier][TARGETS[target][1]]]
+
+
+def ref_xml(root, ref):
+    target, sp = ref
+    pkg, fn = TARGETS[target]
+    name = "." + pkg if sp.startswith("rel") else root + "." + pkg
+    if fn is None and sp in ("file", "relfile"):
+        fn = "component.xml"
+    return '<import package="%s"%s/>' % (name, ' file="%s"' % fn if fn else "")
+
+
+def needs_prefix(refs):
+    return any(sp.startswith("rel") for _, sp in refs)
+
+
+def edge_lists(targets, maxlen, tier, repeat=False):
+    """every list of length 0..maxlen over `targets` (without repetition unless `repeat`), every spelling of
+    every element"""
+    out = []
+    for n in range(0, maxlen + 1):
+        lists = itertools.product(targets, repeat=n) if repeat else itertools.permutations(targets, n)
+        for tl in lists:
+            out += list(itertools.product(*[refs_of(t, tier) for t in tl]))
+    return out
+
+
+def spelling_space(tier):
+    """package sets: (edges of pb, edges of pc); the schema's own import lists are enumerated per set"""
+    pb = edge_lists(("A",), 1, tier)
+    pc = edge_lists(("A", "B", "X"), 2, tier)
+    return [(b, c) for b in pb for c in pc]
+
+
+def top_lists(tier):
+    """the schema's own import lists: length 1..2 over the tier's alphabet; thorough adds length 3 over the quick alphabet"""
+    out = [t for t in edge_lists(("A", "B", "C", "X"), 2, tier, repeat=True) if t]
+    if tier != "quick":
+        out += [t for t in edge_lists(("A", "B", "C", "X"), 3, "quick", repeat=True) if len(t) == 3]
+    return out
+
+
+class CompTree:
+    """One root package with the sub-packages pa, pb, pc; pa carries two component files."""
+
+    def __init__(self, base, n, tdefs, edges):
+        self.root = "vzc11_%d" % n           # n is unique over the whole run: the name (and every case) is reproducible
+        d = os.path.join(base, self.root)
+        os.makedirs(d)
+        with open(os.path.join(d, "__init__.py"), "w") as f:
+            f.write("# generated\n")
+        for pkg in ("pa", "pb", "pc"):
+            os.makedirs(os.path.join(d, pkg))
+            with open(os.path.join(d, pkg, "__init__.py"), "w") as f:
+                f.write("# generated\n")
+        for target, (pkg, fn) in TARGETS.items():
+            refs = edges.get(target, ())
+            lines = ["<component%s>" % (' prefix="%s"' % self.root if needs_prefix(refs) else "")]
+            lines += ["  " + ref_xml(self.root, r) for r in refs]
+            for t in tdefs[target]:
+                lines += M.render_type(t)
+            lines.append("</component>")
+            with open(os.path.join(d, pkg, fn or "component.xml"), "w") as f:
+                f.write("\n".join(lines) + "\n")
+        importlib.invalidate_caches()
+        self.files = {t: open(os.path.join(d, TARGETS[t][0], TARGETS[t][1] or "component.xml")).read() for t in TARGETS}
+
+    def forget(self):
+        for k in [k for k in sys.modules if k == self.root or k.startswith(self.root + ".")]:
+            del sys.modules[k]
+
+
+def _fn(f):
+    if f is None:
+        return None
+    return "%s.%s" % (getattr(f, "__module__", None) or type(f).__module__,
+                      getattr(f, "__qualname__", None) or type(f).__qualname__)
+
+
+def struct(schema, top_unordered=False):
+    """What a schema object says, modulo object identity: per type the key type, the datatype and the
+    ordered items (key, kind, name, attribute, occurrence bounds, handler, datatype, section type or default);
+    per abstract type the set of implementers."""
+    def rows(t):
+        out = []
+        for key, info in t:
+            r = [key, type(info).__name__, info.name, info.attribute, info.minOccurs, repr(info.maxOccurs),
+                 info.handler, _fn(info.datatype)]
+            if info.issection():
+                r.append(("type", info.sectiontype.name))
+            else:
+                r.append(("default", H.canon_value(info.getdefault())))
+            out.append(tuple(r))
+        return tuple(out)
+    out = []
+    for n in sorted(schema.gettypenames()):
+        t = schema.gettype(n)
+        if t.isabstract():
+            out.append(("abstract", n, tuple(sorted(t.getsubtypenames()))))
+        else:
+            out.append(("concrete", n, _fn(t.keytype), _fn(t.datatype), rows(t)))
+    top = rows(schema)
+    out.append(("schema", _fn(schema.keytype), _fn(schema.datatype), schema.handler,
+                tuple(sorted(top, key=repr)) if top_unordered else top))
+    return tuple(out)
+
+
+def struct_diff(a, b):
+    for x, y in zip(a, b):
+        if x != y:
+            return [repr(x)[:300], repr(y)[:300]]
+    return [len(a), len(b)]
+
+
+def shard_spellings(arg, acc):
+    lo, hi, tier = arg
+    space = spelling_space(tier)
+    tops = top_lists(tier)
+    ta = M.SType("ta", (M.Key("ak", default="a"),), implements="a")
+    tb = M.SType("tb", (M.Key("bk"),), extends="ta")
+    tc = M.SType("tc", (M.MultiKey("cm"),), implements="a")
+    tx = M.SType("tx", (M.Key("xk", default="x"), M.Sect("*", "a", attribute="xs", multi=True)), implements="a")
+    tdefs = {"A": [ta], "B": [tb], "C": [tc], "X": [tx]}
+    base = tempfile.mkdtemp(prefix="vz-c11-", dir="/dev/shm" if os.path.isdir("/dev/shm") else None)
+    sys.path.insert(0, base)
+    depth = 1 if tier == "quick" else 2
+    try:
+        for idx in range(lo, min(hi, len(space))):
+            pb_edges, pc_edges = space[idx]
+            T = CompTree(base, idx, tdefs, {"B": pb_edges, "C": pc_edges})
+            deps = {"A": (), "X": (), "B": tuple(t for t, _ in pb_edges), "C": tuple(t for t, _ in pc_edges)}
+            by_graph = {}
+            for top in tops:
+                by_graph.setdefault(tuple(t for t, _ in top), []).append(top)
+            for gtop, variants in by_graph.items():
+                d = 1 if len(gtop) > 2 else depth
+                spellings_graph(T, deps, pb_edges, pc_edges, gtop, variants, tdefs, d, d - 1, acc)
+            T.forget()
+    finally:
+        try:
+            sys.path.remove(base)
+        except ValueError:
+            pass
+        importlib.invalidate_caches()
+        shutil.rmtree(base, ignore_errors=True)
+    return acc
+
+
+def spellings_graph(T, deps, pb_edges, pc_edges, gtop, variants, tdefs, depth, imp_depth, acc):
+    """One import graph (who imports which component, in which order); `variants` are the spellings of the
+    schema's own import list.  The expansion and its texts are computed once, every variant is held against it."""
+    order, seq = [], []
+
+    def imp(c):
+        if c in order:
+            return
+        order.append(c)                # registered before its content is read
+        for q in deps[c]:
+            imp(q)
+        seq.extend(tdefs[c])
+    for c in gtop:
+        imp(c)
+    defined = [t.name for t in seq]
+    ill = any(t.extends and t.extends not in defined[:i] for i, t in enumerate(seq))
+    items = [M.Sect("*", "a", attribute="abs", multi=True)]
+    if not ill:
+        for t in seq:
+            items.append(M.Sect("*", t.name, attribute="s_" + t.name, multi=True))
+    texts = []
+    sch_e = st_e = None
+    if not ill:
+        Sx = X.expand(M.Schema(types=(M.AType("a"),) + tuple(seq), items=tuple(items)))
+        ex_xml = M.render(Sx)
+        sch_e, err_e = load_or_error(ex_xml)
+        if sch_e is None:
+            raise core.HarnessError("expansion of an import graph refused: %r" % (err_e,))
+        st_e = struct(sch_e)
+
+        def collect(hist, text):
+            oe = outcome(sch_e, text)
+            ref = R.decide(Sx, hist)
+            texts.append((hist, text, oe, ref.verdict))
+            return oe[0] != "I" and ref.verdict != "U"
+        sub = core.Acc()
+        bfs.explore(Sx, sch_e, (), depth, sub, collect)
+        acc.ev(1 + len(texts))         # the expansion and its texts are loaded once per graph
+        acc.states += 1 + sub.states
+    # packages whose default component is part of the schema: '%import P' names a component already there
+    present = [T.root + "." + TARGETS[c][0] for c in order if TARGETS[c][1] is None]
+    for top in variants:
+        lines = M.render(M.Schema(types=(M.AType("a"),), items=tuple(items),
+                                  prefix=T.root if needs_prefix(top) else None)).split("\n")
+        lines[2:2] = ["  " + ref_xml(T.root, r) for r in top]
+        composed = "\n".join(lines)
+        sch_c, err_c = load_or_error(composed)
+        acc.ev()
+        acc.states += 1
+        read = all_refs(top, pb_edges, pc_edges, order)
+        spell = "+".join(sorted(set(sp for _, sp in read)))
+        mid = {"feature": "import-spelling", "schema_imports": [list(r) for r in top],
+               "pb_imports": [list(r) for r in pb_edges], "pc_imports": [list(r) for r in pc_edges],
+               "composed": composed, "components": T.files, "root": T.root}
+        kinds = set()
+        for c in order:
+            sps = [sp for cc, sp in read if cc == c]
+            if len(set(sps)) > 1:
+                kinds.add("same-component-spelled-differently")
+            if len(sps) > 1:
+                kinds.add("component-reached-repeatedly")
+        if "A" in order and "X" in order:
+            kinds.add("two-files-of-one-package")
+        for k in kinds:
+            acc.cls("imports:" + k)
+        for sp in spell.split("+"):
+            acc.cls("imports:uses-" + sp)
+        if ill:
+            if sch_c is not None or isinstance(err_c, dict):
+                acc.violation("import-order-makes-type-undefined-but-accepted", mid, err_c or "accepted", "SchemaError",
+                              tags={"kind": "schema-acceptance", "feature": "import-spelling"})
+            else:
+                acc.cls("both-refused")
+            continue
+        if sch_c is None:
+            acc.violation("schema-acceptance-differs", dict(mid, expanded=ex_xml), ["composed", err_c],
+                          ["expanded", "accepted"], tags={"kind": "schema-acceptance", "feature": "import-spelling"})
+            continue
+        acc.cls("both-accepted")
+        st_c = struct(sch_c)
+        if st_c != st_e:
+            acc.violation("composed-schema-structure-differs-from-expansion", dict(mid, expanded=ex_xml),
+                          ["composed"] + struct_diff(st_c, st_e)[:1], ["expanded"] + struct_diff(st_c, st_e)[1:],
+                          tags={"kind": "structure", "feature": "import-spelling"})
+            continue
+        for hist, text, oe, verdict in texts:
+            variants_t = [("", text)]
+            if len(hist) <= imp_depth:
+                variants_t += [("%import " + p, "%%import %s\n%s" % (p, text)) for p in present]
+            for label, txt in variants_t:
+                oc = outcome(sch_c, txt)
+                acc.ev()
+                acc.transitions += 1
+                if hist:
+                    acc.nt()
+                acc.cls("text:%s" % oe[0])
+                if label:
+                    acc.cls("imports:text-with-%import-of-a-present-component")
+                acc.sample(lambda: {"feature": "import-spelling", "schema_imports": [list(r) for r in top],
+                                    "text": txt, "outcome": oe[0]})
+                if verdict == "U":
+                    acc.cls("text:unspecified")
+                    continue
+                if oe != oc:
+                    acc.violation("composed-differs-from-expansion", dict(mid, expanded=ex_xml, text=txt),
+                                  ["composed", oc[0], repr(oc[1:])[:300]], ["expanded", oe[0], repr(oe[1:])[:300]],
+                                  tags={"kind": "differs", "feature": "import-spelling", "composed": oc[0],
+                                        "expanded": oe[0], "percent_import": bool(label)})
+                    break
+
+
+def all_refs(top, pb_edges, pc_edges, order):
+    """references actually read while the schema is loaded"""
+    out = list(top)
+    if "B" in order:
+        out += list(pb_edges)
+    if "C" in order:
+        out += list(pc_edges)
+    return out
+
+
 def import_combos(tier):
     out = []
     for pb_imp in ((), ("pa",)):
@@ -419,6 +719,8 @@ def run(tier):
     nch = len(chains(tier))
     npr = len(prefix_schemas(tier))
     nim = len(import_combos(tier))
+    nsp = len(spelling_space(tier))
+    ntop = len(top_lists(tier))
     run = core.Run(
         "C11", tier, "model_checking",
         rule="%d extends chains (length 1..3; every item kind per link; key type / datatype / implements overridden at "
@@ -428,10 +730,25 @@ def run(tier):
              "schema-level extends of 1..3 base files x 5 key-type situations and extends chains of depth 2..3 with key type / datatype set at one level, %d component import graphs (3 packages: "
              "who imports whom x every import list of length 1..3 incl. repeats): each composed schema and its "
              "expansion are loaded and the whole breadth-first search (C01 engine, depth 3; 2 for imports in quick) of "
-             "the expanded schema is replayed on both.  states = schemas + BFS states, transitions = texts.  "
+             "the expanded schema is replayed on both; the two schema objects must also have the same structure (types, key "
+             "types, datatypes, ordered items with their defaults, implementers).  Import-reference spellings: a component "
+             "is a (package, file) pair; 4 components in 3 sub-packages of one root package (pa has component.xml and "
+             "extra.xml); pb imports [] or [A], pc imports every list without repetition of length <= 2 over {A, B, X}, the "
+             "schema imports every list of length 1..%d over {A, B, C, X}; EVERY edge carries EVERY spelling of its "
+             "component out of {%s} for a default file (abs = absolute package, file omitted; file = file='component.xml' "
+             "written out; rel = '.pkg' under a prefix naming the root package; relfile = both) and {abs, rel} for extra.xml: %d package "
+             "sets x %d schema import lists = %d composed schemas, each held against the expansion of its graph "
+             "(acceptance, structure, every text of the BFS to depth %d), and every text of depth <= %d also with a "
+             "'%%import P' line in front for every package P whose default component the schema already has "
+             "(thorough: lists of length 3 use the quick alphabet and text depth 1 / 0).  "
+             "states = schemas + BFS states, transitions = texts.  "
              "Non-trivial = text with >= 1 key or section event (every type here exists through composition)."
-             % (nch, npr, nim),
-        bounds={"chains": nch, "prefix_schemas": npr, "import_graphs": nim, "depth": 3},
+             % (nch, npr, nim, 2 if tier == "quick" else 3, ", ".join(SPELL[tier][None]), nsp, ntop, nsp * ntop,
+                1 if tier == "quick" else 2, 0 if tier == "quick" else 1),
+        bounds={"chains": nch, "prefix_schemas": npr, "import_graphs": nim, "depth": 3,
+                "import_spelling_package_sets": nsp, "import_spelling_schema_import_lists": ntop,
+                "import_spelling_schemas": nsp * ntop, "import_spelling_alphabet": list(SPELL[tier][None]),
+                "import_spelling_text_depth": 1 if tier == "quick" else 2},
         assumptions=["expansion rules of vz/gen/expand.py written from the statement",
                      "merge order of base schemas is not fixed by the statement: top-level attribute order is not compared there",
                      "not generated (unspecified): a derived key type under which declared base key names are not fixed points"])
@@ -445,8 +762,19 @@ def run(tier):
               [(nb, v, tier) for nb in (2, 3) for v in ("chain-root", "chain-mid", "chain-none")], run.acc)
     step = max(1, (nim + 31) // 32)
     core.pmap(shard_imports, [(lo, lo + step, tier) for lo in range(0, nim, step)], run.acc)
+    step = max(1, (nsp + 63) // 64)
+    core.pmap(shard_spellings, [(lo, lo + step, tier) for lo in range(0, nsp, step)], run.acc, shard_budget=3000.0)
     a = run.acc
     a.traces = a.transitions
+    c = a.classes
+    run.require(c.get("imports:same-component-spelled-differently", 0) > 1000,
+                "import-spelling axis: few schemas reach one component under two different spellings")
+    run.require(c.get("imports:two-files-of-one-package", 0) > 1000,
+                "import-spelling axis: few schemas import two component files of one package")
+    run.require(c.get("imports:text-with-%import-of-a-present-component", 0) > 1000,
+                "import-spelling axis: few texts with a %import line naming a component the schema already has")
+    run.require(all(c.get("imports:uses-" + sp, 0) > 100 for sp in SPELL[tier][None]),
+                "import-spelling axis: a spelling of the alphabet was hardly used")
     run.require(a.classes.get("both-accepted", 0) > 100, "few composed schemas accepted")
     run.require(a.classes.get("both-refused", 0) >= 3, "no composed schema refused together with its expansion")
     run.require(a.classes.get("text:A", 0) > 1000, "few accepted texts")
@@ -456,6 +784,8 @@ def run(tier):
 def replay(body):
     case = body["case"]
     rc = 0
+    if case.get("feature") == "import-spelling":
+        return replay_spelling(case)
     if case.get("feature") in ("schema-extends", "component-imports"):
         print("cases with base files / generated packages are re-checked by ./check C11")
         return 1
@@ -470,4 +800,56 @@ def replay(body):
             print("text:\n" + case["text"] + "composed:", a[0], repr(a[1:])[:200], "\nexpanded:", b[0], repr(b[1:])[:200])
             if a != b:
                 rc = 1
+    return rc
+
+
+def replay_spelling(case):
+    """Rebuild the generated packages from the recorded component files and hold the composed schema against
+    the expansion again (twice)."""
+    base = tempfile.mkdtemp(prefix="vz-c11-", dir="/dev/shm" if os.path.isdir("/dev/shm") else None)
+    root = case["root"]
+    rc = 0
+    sys.path.insert(0, base)
+    try:
+        os.makedirs(os.path.join(base, root))
+        open(os.path.join(base, root, "__init__.py"), "w").close()
+        for target, content in case["components"].items():
+            pkg, fn = TARGETS[target]
+            d = os.path.join(base, root, pkg)
+            os.makedirs(d, exist_ok=True)
+            open(os.path.join(d, "__init__.py"), "w").close()
+            with open(os.path.join(d, fn or "component.xml"), "w") as f:
+                f.write(content)
+            print("--- %s/%s/%s\n%s" % (root, pkg, fn or "component.xml", content))
+        print("--- composed schema\n" + case["composed"])
+        for _ in range(2):
+            sc, ec = load_or_error(case["composed"])
+            print("composed schema:", ec or "accepted")
+            if "expanded" not in case:
+                if sc is not None:
+                    rc = 1
+                continue
+            se, ee = load_or_error(case["expanded"])
+            print("expanded schema:", ee or "accepted")
+            if (sc is None) != (se is None):
+                rc = 1
+            elif sc is not None:
+                if struct(sc) != struct(se):
+                    print("structure differs:", struct_diff(struct(sc), struct(se)))
+                    rc = 1
+                if "text" in case:
+                    plain = "".join(l for l in case["text"].splitlines(True) if not l.startswith("%import "))
+                    a, b = outcome(sc, case["text"]), outcome(se, plain)
+                    print("text:\n" + case["text"] + "composed:", a[0], repr(a[1:])[:200], "\nexpanded:", b[0], repr(b[1:])[:200])
+                    if a != b:
+                        rc = 1
+    finally:
+        try:
+            sys.path.remove(base)
+        except ValueError:
+            pass
+        for k in [k for k in sys.modules if k == root or k.startswith(root + ".")]:
+            del sys.modules[k]
+        importlib.invalidate_caches()
+        shutil.rmtree(base, ignore_errors=True)
     return rc
